@@ -497,6 +497,9 @@ def main(tier):
     # settings across passes (spec/PassModes.tla): a statement never reads a setting made behind it
     from checks import ext_passmodes
     ext_passmodes.run(rep, bld, tier)
+    # user-defined functions, SYMTYPE / DEFINED (spec/UserFunc.tla): the value of a documented function call
+    from checks import ext_userfunc
+    ext_userfunc.run(rep, bld, tier)
     return rep.finish(
         rule="formulas = every operator of the manual's table x every ordered pair of the boundary operand alphabet, "
              "every built-in function over its small domain, alias spellings, plus TLC-simulated trees up to depth 6; "
